@@ -705,3 +705,11 @@ PROPS["C15"]["facts"] = PROPS["C15"]["facts"] + ["bodies/hedgeexecutor:executor.
 # "a retryable response is retried / the returned response is the last attempt's" under awkward server behaviour (round 9: a bounded drain of the
 # retried response before closing it)
 PROPS["C18"]["runners"] = PROPS["C18"].get("runners", []) + [stress_runner("adapterleaks", "an HTTP call through the adapter did not retry a retryable response (or waited for the body of the response it was about to discard), or returned something other than its last attempt's response", confirm=2)]
+
+# the hedge coordinator's TRACE tie (Conc/TraceHedge.lean): per case 3 real hedged executions (maxHedges 0-3, no conditions / CancelIf, per-attempt
+# durations around the 400 us hedge delay) are replayed through Conc.Hedge with the exact acceptor
+PROPS["C09"]["diff"] = PROPS["C09"]["diff"] + [_TRACE_DIFF]
+PROPS["C09"]["rule"] += "; trace slice: real hedged executions (maxHedges 0-3, default and CancelIf conditions, attempt durations 0-2 ms around the 400 us hedge delay): OnHedge, every attempt's entry and return (with whether its value matches the cancel conditions), the returned value's attempt and every entered attempt's IsCanceled() after the return, stamped with one atomic counter, must be shown by some interleaving of the Lean model"
+PROPS["C09"]["manifest"]["text"] += " TRACE: recorded event lists of real hedged executions are decided by an acceptor proved exact for the interleaving model; what acceptance implies is proved in the property file."
+PROPS["C09"]["manifest"]["technique"] += " + trace acceptance against the interleaving model (acceptor proved sound and complete)"
+PROPS["C09"]["required_theorems"] += ["Failsafe.Props.C09." + t for t in ["accepted_states_inv", "returned_value_was_produced", "hedge_event_needs_slot", "readings_after_return"]]
